@@ -179,10 +179,22 @@ func VerifyTSIG(b []byte, secrets map[string]string, prior []byte, timersOnly bo
 		v.Judgable, v.Reason = false, "rcode NOTAUTH"
 		return v
 	}
-	if t.Class != 255 || t.TTL != 0 || t.Odd {
-		// CLASS and TTL enter the digest as the constants ANY and 0, and a
-		// timers-only digest covers none of error / other data: an alteration
-		// there is not something the MAC can or must catch - not judged
+	if t.Class != 255 {
+		// the TSIG variables cover CLASS, which is ANY (RFC 8945 4.2, 4.3.3): whether a verifier
+		// hashes the constant or the field, a record that says otherwise does not carry a MAC
+		// over what it says
+		v.Reason = "TSIG class is not ANY"
+		return v
+	}
+	if t.TTL != 0 && !timersOnly {
+		// likewise TTL, which is 0 - where the variables are part of the digest at all
+		v.Reason = "TSIG TTL is not 0"
+		return v
+	}
+	if t.TTL != 0 || t.Odd {
+		// a timers-only digest covers none of TTL / error / other data, and the
+		// record's inner lengths are not digested either: an alteration there is
+		// not something the MAC can or must catch - not judged
 		v.Judgable, v.Reason = false, "TSIG record header or layout not as RFC 8945 prescribes"
 		return v
 	}
